@@ -56,7 +56,7 @@ var c11Preconds = map[string][]string{
 
 func precondFacts(fn *ssa.Function) []an.Fact {
 	var out []an.Fact
-	for i, pc := range c11Preconds[fn.Name()] {
+	for i, pc := range c11Preconds[an.NameOf(fn)] {
 		// "len(x) >= k": the i-th precondition is about the i-th parameter, whatever it is called in the source
 		var name string
 		var k int64
@@ -147,11 +147,11 @@ func runC11(c *core.Ctx, o Options) {
 		// loop invariants of this function, proved by induction: len(loop-carried slice) ≥ 1 where needed
 		var inv []an.Fact
 		inv = append(inv, precondFacts(fn)...)
-		if fn.Name() == "splitGroup" {
+		if an.NameOf(fn) == "splitGroup" {
 			if f, why := proveLenInvariant(c, fn, heads, getPaths(), inv); why == "" {
 				inv = append(inv, f...)
 			} else {
-				c.Ob("bounds", fn.Name(), "loop invariant len(line) ≥ 1", fn.Pos()).Fail("%s", why)
+				c.Ob("bounds", an.NameOf(fn), "loop invariant len(line) ≥ 1", fn.Pos()).Fail("%s", why)
 			}
 		}
 		an.AllInstrs(fn, func(in ssa.Instruction) {
@@ -231,7 +231,7 @@ func runC11(c *core.Ctx, o Options) {
 				nSites++
 				pos := c.RelPos(in.Pos())
 				desc := an.Render(in.(ssa.Value))
-				ob := c.Ob("bounds", fn.Name(), desc, in.Pos())
+				ob := c.Ob("bounds", an.NameOf(fn), desc, in.Pos())
 				if !resid[pos] && in.Pos().IsValid() {
 					nGC++
 					ob.Ok("proved by the Go compiler's prove pass (not in the residual bounds-check report)")
@@ -279,7 +279,7 @@ func runC11(c *core.Ctx, o Options) {
 				if lenConst && capConst {
 					return
 				}
-				ob := c.Ob("bounds", fn.Name(), "allocation size of "+an.Render(x), x.Pos())
+				ob := c.Ob("bounds", an.NameOf(fn), "allocation size of "+an.Render(x), x.Pos())
 				var failed string
 				nPaths := 0
 				for _, p := range getPaths() {
@@ -320,13 +320,13 @@ func runC11(c *core.Ctx, o Options) {
 				}
 			case *ssa.MakeChan:
 				if _, isC := an.ConstInt(x.Size); !isC {
-					c.Ob("bounds", fn.Name(), "buffer size of "+an.Render(x), x.Pos()).Fail("a channel is made with the non-constant size %s on the inbound path: a negative or huge size panics", an.Render(x.Size))
+					c.Ob("bounds", an.NameOf(fn), "buffer size of "+an.Render(x), x.Pos()).Fail("a channel is made with the non-constant size %s on the inbound path: a negative or huge size panics", an.Render(x.Size))
 				}
 			case *ssa.TypeAssert:
 				if x.CommaOk {
 					return
 				}
-				ob := c.Ob("assert", fn.Name(), an.Render(x), x.Pos())
+				ob := c.Ob("assert", an.NameOf(fn), an.Render(x), x.Pos())
 				if why := poolAssertSafe(c, fn, x); why != "" {
 					ob.Ok("%s", why)
 				} else if why := assertSafe(x); why != "" {
@@ -338,11 +338,11 @@ func runC11(c *core.Ctx, o Options) {
 				if s, ok := an.ConstString(an.Unwrap(x.X)); ok && strings.HasPrefix(s, "blocking select") {
 					return
 				}
-				c.Ob("panic", fn.Name(), "explicit panic", x.Pos()).Fail("an explicit panic is reachable from the decoder")
+				c.Ob("panic", an.NameOf(fn), "explicit panic", x.Pos()).Fail("an explicit panic is reachable from the decoder")
 			case *ssa.BinOp:
 				if (x.Op == token.QUO || x.Op == token.REM) && isIntLike(x) {
 					if k, ok := an.ConstInt(x.Y); !ok || k == 0 {
-						c.Ob("div", fn.Name(), an.Render(x), x.Pos()).Fail("integer division by a value not known to be non-zero")
+						c.Ob("div", an.NameOf(fn), an.Render(x), x.Pos()).Fail("integer division by a value not known to be non-zero")
 					}
 				}
 			}
@@ -354,11 +354,11 @@ func runC11(c *core.Ctx, o Options) {
 				return
 			}
 			cal := an.StaticCallee(&call.Call)
-			if cal == nil || c11Preconds[cal.Name()] == nil || !set[cal] {
+			if cal == nil || c11Preconds[an.NameOf(cal)] == nil || !set[cal] {
 				return
 			}
-			for i, pc := range c11Preconds[cal.Name()] {
-				ob := c.Ob("precond", fn.Name(), "call of "+cal.Name()+": "+pc, call.Pos())
+			for i, pc := range c11Preconds[an.NameOf(cal)] {
+				ob := c.Ob("precond", an.NameOf(fn), "call of "+an.NameOf(cal)+": "+pc, call.Pos())
 				bad := ""
 				for _, p := range getPaths() {
 					if !p.Passes(call) {
@@ -379,7 +379,7 @@ func runC11(c *core.Ctx, o Options) {
 		})
 		// termination
 		for _, lp := range loops(fn) {
-			ob := c.Ob("term", fn.Name(), "loop at "+lp[len(lp)-1].Comment+" terminates", lp[len(lp)-1].Instrs[0].Pos())
+			ob := c.Ob("term", an.NameOf(fn), "loop at "+lp[len(lp)-1].Comment+" terminates", lp[len(lp)-1].Instrs[0].Pos())
 			if why := loopTerminates(fn, lp, inv); why != "" {
 				ob.Ok("%s", why)
 			} else {
@@ -412,7 +412,7 @@ var boundsExceptionReason = "d[:offset+length-1] in the raw validation: the uppe
 // isBoundsException: the one tabled site, identified structurally (slice of parameter d whose high bound is the mirror arithmetic len(d) − |CheckSum field| − 2).
 func isBoundsException(fn *ssa.Function, in ssa.Instruction) bool {
 	sl, ok := in.(*ssa.Slice)
-	if !ok || fn.Name() != "validateRaw" || sl.Low != nil || sl.High == nil {
+	if !ok || an.NameOf(fn) != "validateRaw" || sl.Low != nil || sl.High == nil {
 		return false
 	}
 	if p, ok := sl.X.(*ssa.Parameter); !ok || p.Name() != "d" {
@@ -484,7 +484,7 @@ func assertSafe(x *ssa.TypeAssert) string {
 		return ""
 	}
 	want := types2(x.AssertedType.String())
-	if cal := an.StaticCallee(&call.Call); cal != nil && cal.Name() == "Value" && cal.Signature.Recv() != nil {
+	if cal := an.StaticCallee(&call.Call); cal != nil && an.NameOf(cal) == "Value" && cal.Signature.Recv() != nil {
 		if an.TypeIs(cal.Signature.Recv().Type(), "fix", "Int") && want == "int" {
 			return "Int.Value() returns the stored int (codec table)"
 		}
@@ -664,7 +664,7 @@ func loopTerminates(fn *ssa.Function, lp []*ssa.BasicBlock, inv []an.Fact) strin
 // premises are checked: the only writer of HandlerPool.handlers is add(); the incoming pool is fed only through
 // IncomingHandlerPool.Add (parameter type IncomingHandlerFunc) and the outgoing pool only through HandlerPool.Add (OutgoingHandlerFunc).
 func poolAssertSafe(c *core.Ctx, fn *ssa.Function, x *ssa.TypeAssert) string {
-	if fn.Name() != "Range" || fn.Signature.Recv() == nil {
+	if an.NameOf(fn) != "Range" || fn.Signature.Recv() == nil {
 		return ""
 	}
 	recv := an.NamedOf(fn.Signature.Recv().Type())
@@ -705,9 +705,9 @@ func poolAssertSafe(c *core.Ctx, fn *ssa.Function, x *ssa.TypeAssert) string {
 			arg := an.Unwrap(call.Call.Args[2])
 			t := arg.Type().String()
 			switch {
-			case f.Name() == "Add" && an.TypeIs(f.Signature.Recv().Type(), "simplefix-go", "IncomingHandlerPool") && strings.HasSuffix(t, ".IncomingHandlerFunc"):
+			case an.NameOf(f) == "Add" && an.TypeIs(f.Signature.Recv().Type(), "simplefix-go", "IncomingHandlerPool") && strings.HasSuffix(t, ".IncomingHandlerFunc"):
 				okIn = true
-			case f.Name() == "Add" && an.TypeIs(f.Signature.Recv().Type(), "simplefix-go", "HandlerPool") && strings.HasSuffix(t, ".OutgoingHandlerFunc"):
+			case an.NameOf(f) == "Add" && an.TypeIs(f.Signature.Recv().Type(), "simplefix-go", "HandlerPool") && strings.HasSuffix(t, ".OutgoingHandlerFunc"):
 				okOut = true
 			default:
 				bad = true
@@ -726,7 +726,7 @@ func poolAssertSafe(c *core.Ctx, fn *ssa.Function, x *ssa.TypeAssert) string {
 		name := ""
 		an.AllInstrs(f, func(in ssa.Instruction) {
 			if call, ok := in.(*ssa.Call); ok {
-				if cal := an.StaticCallee(&call.Call); cal != nil && cal.Name() == "Add" {
+				if cal := an.StaticCallee(&call.Call); cal != nil && an.NameOf(cal) == "Add" {
 					name = an.NamedOf(cal.Signature.Recv().Type()).Obj().Name() + "." + an.Render(call.Call.Args[0])
 				}
 			}
